@@ -33,6 +33,15 @@ theorem Obj.run_tokenSet (cx : NumCtx) (o : Obj) (evs : List Event) : (o.run cx 
     show (Obj.run cx (o.apply cx e).2 es).row.tokenSet = _
     rw [ih, Obj.apply_tokenSet]
 
+/-- `broker.allow_negative_balance` never changes -/
+theorem Obj.run_allowNeg (cx : NumCtx) (o : Obj) (evs : List Event) : (o.run cx evs).allowNeg = o.allowNeg := by
+  induction evs generalizing o with
+  | nil => rfl
+  | cons e es ih =>
+    show (Obj.run cx (o.apply cx e).2 es).allowNeg = _
+    rw [ih]
+    cases e <;> simp [Obj.apply, Obj.setStatus]
+
 /-- calls inside a bar leave the row alone -/
 theorem Obj.run_inBar_row (cx : NumCtx) (o : Obj) (evs : List Event) (h : ∀ e ∈ evs, e.inBar = true) :
     (o.run cx evs).row = o.row := by
@@ -86,16 +95,17 @@ open GmxV1 in
 theorem C17_v1_op_depends_only_on_row_holding_args (cx : NumCtx) (o : Obj) (history : List Event) (row : Env) (calls : List Event)
     (h : ∀ e ∈ calls, e.inBar = true) (p : Op) :
     let before := o.run cx (history ++ [.setStatus row] ++ calls)
-    let r := step cx { row with tokenSet := o.row.tokenSet } before.st p
+    let r := step cx { row with tokenSet := o.row.tokenSet } before.st p o.allowNeg
     (before.apply cx (.op p)).1 = .value r.1 ∧ (before.apply cx (.op p)).2.st = r.2 ∧
       (before.apply cx (.op p)).2.row = { row with tokenSet := o.row.tokenSet } := by
   intro before r
   have hrow : before.row = { row with tokenSet := o.row.tokenSet } := Obj.row_after cx o history row calls h
+  have hneg : before.allowNeg = o.allowNeg := Obj.run_allowNeg cx o _
   refine ⟨?_, ?_, ?_⟩
-  · show Answer.value (step cx before.row before.st p).1 = _
-    rw [hrow]
-  · show (step cx before.row before.st p).2 = _
-    rw [hrow]
+  · show Answer.value (step cx before.row before.st p before.allowNeg).1 = _
+    rw [hrow, hneg]
+  · show (step cx before.row before.st p before.allowNeg).2 = _
+    rw [hrow, hneg]
   · show before.row = _
     exact hrow
 
@@ -113,14 +123,15 @@ theorem Obj.run_append (ops : Ops α) (cx : NumCtx) (o : Obj α) (a b : List (Ev
 
 /-- configuration and token keys never change -/
 theorem Obj.run_static (ops : Ops α) (cx : NumCtx) (o : Obj α) (evs : List (Event α)) :
-    (o.run ops cx evs).cfg = o.cfg ∧ (o.run ops cx evs).longKey = o.longKey ∧ (o.run ops cx evs).shortKey = o.shortKey := by
+    (o.run ops cx evs).cfg = o.cfg ∧ (o.run ops cx evs).longKey = o.longKey ∧ (o.run ops cx evs).shortKey = o.shortKey ∧
+      (o.run ops cx evs).allowNeg = o.allowNeg := by
   induction evs generalizing o with
-  | nil => exact ⟨rfl, rfl, rfl⟩
+  | nil => exact ⟨rfl, rfl, rfl, rfl⟩
   | cons e es ih =>
     have := ih (o.apply ops cx e).2
     show (Obj.run ops cx (o.apply ops cx e).2 es).cfg = _ ∧ (Obj.run ops cx (o.apply ops cx e).2 es).longKey = _ ∧
-      (Obj.run ops cx (o.apply ops cx e).2 es).shortKey = _
-    rw [this.1, this.2.1, this.2.2]
+      (Obj.run ops cx (o.apply ops cx e).2 es).shortKey = _ ∧ (Obj.run ops cx (o.apply ops cx e).2 es).allowNeg = _
+    rw [this.1, this.2.1, this.2.2.1, this.2.2.2]
     cases e <;> simp [Obj.apply]
 
 theorem Obj.run_inBar_row (ops : Ops α) (cx : NumCtx) (o : Obj α) (evs : List (Event α)) (h : ∀ e ∈ evs, e.inBar = true) :
@@ -156,16 +167,16 @@ open GmxV2
 theorem C17_v2_mint_depends_only_on_row_holding_args (ops : Ops α) (cx : NumCtx) (o : Obj α) (history : List (Event α))
     (row : Pool α) (calls : List (Event α)) (h : ∀ e ∈ calls, e.inBar = true) (long short : α) :
     let before := o.run ops cx (history ++ [.setStatus row] ++ calls)
-    let r := deposit ops cx o.cfg row o.longKey o.shortKey before.st long short
+    let r := deposit ops cx o.cfg row o.longKey o.shortKey before.st long short o.allowNeg
     (before.apply ops cx (.deposit long short)).1 = .deposit r.1 ∧ (before.apply ops cx (.deposit long short)).2.st = r.2 := by
   intro before r
   have hrow : before.row = row := Obj.row_after ops cx o history row calls h
-  obtain ⟨hc, hl, hs⟩ := Obj.run_static ops cx o (history ++ [.setStatus row] ++ calls)
+  obtain ⟨hc, hl, hs, hn⟩ := Obj.run_static ops cx o (history ++ [.setStatus row] ++ calls)
   refine ⟨?_, ?_⟩
-  · show Answer.deposit (deposit ops cx before.cfg before.row before.longKey before.shortKey before.st long short).1 = _
-    rw [hrow, hc, hl, hs]
-  · show (deposit ops cx before.cfg before.row before.longKey before.shortKey before.st long short).2 = _
-    rw [hrow, hc, hl, hs]
+  · show Answer.deposit (deposit ops cx before.cfg before.row before.longKey before.shortKey before.st long short before.allowNeg).1 = _
+    rw [hrow, hc, hl, hs, hn]
+  · show (deposit ops cx before.cfg before.row before.longKey before.shortKey before.st long short before.allowNeg).2 = _
+    rw [hrow, hc, hl, hs, hn]
 
 /-- the same for a withdrawal -/
 theorem C17_v2_redeem_depends_only_on_row_holding_args (ops : Ops α) (cx : NumCtx) (o : Obj α) (history : List (Event α))
@@ -175,7 +186,7 @@ theorem C17_v2_redeem_depends_only_on_row_holding_args (ops : Ops α) (cx : NumC
     (before.apply ops cx (.withdraw amount)).1 = .withdraw r.1 ∧ (before.apply ops cx (.withdraw amount)).2.st = r.2 := by
   intro before r
   have hrow : before.row = row := Obj.row_after ops cx o history row calls h
-  obtain ⟨hc, hl, hs⟩ := Obj.run_static ops cx o (history ++ [.setStatus row] ++ calls)
+  obtain ⟨hc, hl, hs, _⟩ := Obj.run_static ops cx o (history ++ [.setStatus row] ++ calls)
   refine ⟨?_, ?_⟩
   · show Answer.withdraw (withdraw ops cx before.cfg before.row before.longKey before.shortKey before.st amount).1 = _
     rw [hrow, hc, hl, hs]
